@@ -44,6 +44,20 @@ Proof.
   split; [intros; apply flat_ti_step; assumption|]. split; [exact od_set_names|]. split; [exact od_set_find|exact od_set_find_other].
 Qed.
 
+(** the model's get_polymorphic_target is the decision function with the default (empty) polymap *)
+Lemma poly_target_decide : forall poly U c d,
+  poly_target shape_ok poly U c d
+  = match gpt_decide poly (Nat.eqb d c) (is_subclass U d c) true with
+    | GDecl => (c, false)
+    | GInst => (d, true)
+    | GMap => (d, true)
+    end.
+Proof.
+  intros poly U c d. unfold poly_target, gpt_decide. cbn [shape_ok sh_gpt_same_skip sh_gpt_isinstance andb].
+  destruct poly; cbn [negb]; [|reflexivity].
+  destruct (Nat.eqb d c); [reflexivity|]. destruct (is_subclass U d c); reflexivity.
+Qed.
+
 (* ------------------------------------------------------------------ registry *)
 Lemma registered_In U tns reg d : registered reg U d = true -> In (key_of U tns (TRef d), TRef d) reg.
 Proof.
